@@ -2,19 +2,30 @@
    exclude every other winner; the list is empty exactly when no set of true assertions can do that, in particular
    whenever the reported winner is not the unique possible IRV winner.
 
-   What is proved here, for ALL candidate lists, profiles, reported winners and outputs (no size bounds), is the
-   correctness of the CHECKERS of RaireCheck.v:
+   What is proved here, for ALL candidate lists, profiles, reported winners and outputs (no size bounds):
+   (A) the correctness of the CHECKERS of RaireCheck.v:
      - check_output accepts an output only if every assertion in it is true of the profile with exactly the tallies
        it reports (winner tally strictly larger) and every complete elimination order ending in another candidate is
        contradicted by a returned assertion (C04_checked_output_sound);
      - possible = true exactly when some set of true assertions is sufficient (C04_possible_iff), so "returns the
        empty list exactly when no set of true assertions can exclude every alternative winner" is the run-time
        equation  output = []  <->  possible = false;
-     - the "in particular" clause and what the audit is for (C04_in_particular).
-   The search algorithm itself (shangrla/raire/raire.py compute_raire_assertions: frontier, dive, lower bound,
-   de-duplication, subsumption) is NOT modelled or proved: every output of the implementation is validated on each
-   run by these verified checkers (harness/c04.py -> Run_Raire.agree_c04; DESIGN section 4 table, row C04/C15). *)
-From SV Require Import RaireCheck RaireCheck_proofs RaireAlgo RaireAlgo_proofs.
+     - the "in particular" clause and what the audit is for (C04_in_particular);
+   (B) about the SEARCH ITSELF: RaireAlgo.raire is a fuelled executable model of shangrla/raire/raire.py
+       compute_raire_assertions (frontier, find_best_audit, manage_node, perform_dive with the order hint,
+       best-ancestor replacement, lower bound, same_as de-duplication, sorting, both subsumes rules), compared
+       output-for-output with the implementation on every run (Run_Raire.agree_algo).  For every fuel, difficulty
+       function, duplicate-free candidate list, profile, total, reported winner and order hint: whenever the model
+       returns a non-empty list, check_output accepts it (C04_algo_output_checked) — every returned assertion is true
+       with exactly its reported tallies, the set excludes every alternative order, every valid IRV count elects the
+       reported winner (C04_algo_sound); and the result is EMPTY EXACTLY WHEN no set of true assertions can exclude
+       every alternative winner (C04_algo_empty_iff: `out = [] <-> possible = false`, both directions; with
+       C04_in_particular this covers "whenever the reported winner is not the unique possible IRV winner").
+       So the whole of C04 is proved about the model, for every run that does not exhaust its fuel.
+   NOT proved about the model: that the default fuel always suffices (termination), and optimality (C15); the fuel
+   is checked on every run (exhaustion is reported as a disagreement), optimality per output by the verified `opt`
+   (harness/c04.py, c15.py; DESIGN section 4 table, row C04/C15). *)
+From SV Require Import RaireCheck RaireCheck_proofs RaireAlgo RaireAlgo_proofs RaireAlgo_inv RaireAlgo_complete.
 Open Scope nat_scope.
 
 (* the tree-based decision procedure is exact: true iff EVERY complete order ending in another candidate is
@@ -53,33 +64,50 @@ Proof. exact in_particular. Qed.
 Print Assumptions C04_in_particular.
 
 (* ---- the model of the search itself (RaireAlgo.raire, compared output-for-output with compute_raire_assertions on
-   every run by Run_Raire.agree_algo).  Full statement aimed at (C04_algo):
-     raire fuel dfun cands p tot winner hint = Some out -> out <> [] -> check_output cands p winner (map fst out) = true.
-   Proved: (1) its first half unconditionally — every assertion of the model's output is well formed and true of
-   the profile with exactly the tallies it reports; (2) the full statement CONDITIONAL on the one invariant of the
-   search loop that is not proved, `frontier_covers` (every alternative order has a suffix among the frontier tails
-   when the loop ends; see the comment in RaireAlgo_proofs.v for what its preservation needs).  Everything after
-   the loop — find_best_audit's assertion excludes its tail, same_as de-duplication, sorting, both subsumes rules —
-   is proved sound. *)
-Theorem C04_algo_output_true_partial :
+   every run by Run_Raire.agree_algo).  The loop invariant (every alternative order keeps a frontier entry whose tail
+   is a suffix of it) is RaireAlgo_inv.search_frontier_covers. *)
+Theorem C04_algo_output_checked :
+  forall fuel dfun cands p tot winner hint out,
+    NoDup cands ->
+    raire fuel dfun cands p tot winner hint = Some out -> out <> [] ->
+    check_output cands p winner (map fst out) = true.
+Proof. exact raire_model_output_checked. Qed.
+Print Assumptions C04_algo_output_checked.
+
+Theorem C04_algo_sound :
+  forall fuel dfun cands p tot winner hint out,
+    NoDup cands ->
+    raire fuel dfun cands p tot winner hint = Some out -> out <> [] ->
+    (forall a tw tl, In (a, tw, tl) (map fst out) ->
+        holds cands p a = true /\ tally_w p a = tw /\ tally_l p a = tl /\ tl < tw)
+    /\ sufficient cands winner (map rep_assertion (map fst out))
+    /\ (forall pi, complete_order cands pi -> valid_order p pi -> ends_in_other winner pi = false).
+Proof. exact raire_model_sound. Qed.
+Print Assumptions C04_algo_sound.
+
+(* the emptiness clause, both directions *)
+Theorem C04_algo_empty_iff :
+  forall fuel dfun cands p tot winner hint out,
+    NoDup cands ->
+    raire fuel dfun cands p tot winner hint = Some out ->
+    (out = [] <-> possible cands p winner = false).
+Proof. exact raire_model_empty_iff. Qed.
+Print Assumptions C04_algo_empty_iff.
+
+Theorem C04_algo_nonempty_possible :
+  forall fuel dfun cands p tot winner hint out,
+    NoDup cands ->
+    raire fuel dfun cands p tot winner hint = Some out -> out <> [] -> possible cands p winner = true.
+Proof. exact raire_model_nonempty_possible. Qed.
+Print Assumptions C04_algo_nonempty_possible.
+
+(* also without NoDup and for empty outputs: every assertion of the model's output reports its exact tallies *)
+Theorem C04_algo_output_true :
   forall fuel dfun cands p tot winner hint out,
     raire fuel dfun cands p tot winner hint = Some out ->
     forallb (rep_ok cands p) (map fst out) = true.
 Proof. exact raire_model_output_true_partial. Qed.
-Print Assumptions C04_algo_output_true_partial.
-
-Theorem C04_algo_checked_partial :
-  forall fuel dfun cands p tot winner hint out,
-    NoDup cands ->
-    (forall h fr,
-        search dfun cands p tot hint (neb_table dfun cands p tot) fuel
-               (fst (initial dfun cands p tot (neb_table dfun cands p tot) winner))
-               (snd (initial dfun cands p tot (neb_table dfun cands p tot) winner)) (-10 # 1)%Q = Finished h fr ->
-        frontier_covers cands winner h fr) ->
-    raire fuel dfun cands p tot winner hint = Some out -> out <> [] ->
-    check_output cands p winner (map fst out) = true.
-Proof. exact raire_model_output_checked_partial. Qed.
-Print Assumptions C04_algo_checked_partial.
+Print Assumptions C04_algo_output_true.
 
 (* ---- non-vacuity: concrete inputs satisfying the hypotheses *)
 Definition ex_cands : list cand := [0; 1; 2].
@@ -120,3 +148,8 @@ Example ex_algo :
   | None => false
   end = true.
 Proof. vm_compute. reflexivity. Qed.
+(* ... and the empty list, without running out of fuel, on the tied two-candidate profile and for a wrong winner *)
+Example ex_algo_empty :
+  raire (default_fuel [0; 1]) cp_q [0; 1] [[0]; [1]] 2 0 [] = Some []
+  /\ raire (default_fuel ex_cands) cp_q ex_cands ex_profile 10 2 [] = Some [].
+Proof. vm_compute. split; reflexivity. Qed.
